@@ -452,6 +452,8 @@ def _advanced_setitem(itp, arr, sels, value):
         buf.elem = new_elem
         buf.writes += 1
         arr.fancy_hit = hit
+        # ground instance of the second axiom at a caller-chosen position (E-matching cannot find arithmetic witnesses)
+        arr.fancy_instance = lambda kk: z3.Implies(z3.And(T.zi(kk) >= 0, T.zi(kk) < T.zi(n)), hit(*[T.zi(g((T.zi(kk),))) for g in gs]))
         return
     raise Unsupported("advanced store pattern")
 
